@@ -75,13 +75,17 @@ func (d *lexDom) start() (*Engine, *State) {
 	d.tobj = e.NewObj("", nil)
 	d.base = avSym{id: e.fresh(), tag: "P"}
 	d.expr = avSym{id: e.fresh(), tag: "expr"}
+	st = e.WithInit(d.p.SSA.Package(d.p.Lexer.Types), st)
 	st.store(avPtr{d.lobj, "#n"}, avConst{constant.MakeInt64(0)})
 	return e, st
 }
 
 func (d *lexDom) Load(e *Engine, st *State, p avPtr, t types.Type) AV {
 	if strings.HasPrefix(p.o.label, "global:") {
-		return avSym{tag: p.o.label + p.path, nonNil: true}
+		if _, isIface := t.Underlying().(*types.Interface); isIface {
+			return avSym{tag: p.o.label + p.path, nonNil: true}
+		}
+		return zeroAV(t)
 	}
 	if p.o == d.lobj {
 		if b, ok := t.Underlying().(*types.Basic); ok {
